@@ -22,6 +22,7 @@ LEVEL_TEXT = ("Representation-invariant rules for miasm.core.interval: single wr
               "canonicalising constructor, unconditional canonicalisation, exhaustive handling of the comparison classes, readers "
               "that rely on the canonical form. Necessary for equality/hull/length to be set operations; the per-class arithmetic of "
               "difference/intersection is not decided.")
+LEVEL_TEXT += ' Also: closed bounds - a pairing of two members is abandoned only on a strict hi < lo.'
 ASSUMPTIONS = ["CPython ast", "bounds are Python integers"]
 
 
